@@ -30,8 +30,16 @@ def session(r, corrupt_p=0.5, retransmit_p=0.6):
         frames, _ = gens.message_frames(r, seq=r.randrange(8))
         for f in frames:
             if r.random() < corrupt_p:
-                bad, pos, new = gens.corrupt(r, f, region=r.choice(["content", "checksum", None]))
-                evs.append(("d", bad))
+                if r.random() < 0.15 and len(f) > 8:
+                    # the frame arrives in two pieces (two TCP segments): each piece is a unit of its own, none of them
+                    # verifies, nothing of them is delivered
+                    cut = r.randrange(3, len(f) - 2)
+                    evs.append(("d", f[:cut]))
+                    if f[cut:cut + 1] not in (b"\x02", b"\x04", b"\x05", b"\x06", b"\x15"):
+                        evs.append(("d", f[cut:]))
+                else:
+                    bad, pos, new = gens.corrupt(r, f, region=r.choice(["content", "checksum", None]))
+                    evs.append(("d", bad))
                 n_corrupt += 1
                 if r.random() < retransmit_p:
                     evs.append(("d", f))
@@ -91,6 +99,23 @@ def run(ctx):
         hs.append((r.choice(FORMATS), evs + gens.PROBE, {"nontrivial": True}))
     run_histories_fmt(ot, hs, ctx)
     streams.append(ot)
+
+    # the rule does not wear off: damaged frames after more than a thousand accepted messages of one transfer
+    lg = Stream("damage-late-in-a-long-transfer")
+    hs = []
+    for i in range(3 if ctx.thorough else 1):
+        n = r.choice([1050, 1300])
+        evs = [("d", gens.ENQ)]
+        for k in range(n):
+            evs.append(("d", gens.frame(k % 8, b"R|%d|v" % k, True)))
+        for k in range(6):
+            f = gens.message_frames(r, seq=k % 8, parts=r.choice([1, 2]))[0]
+            evs.append(("d", gens.corrupt(r, f[0], region=r.choice(["content", "checksum"]))[0]))
+            evs += [("d", x) for x in f]
+        evs.append(("d", gens.EOT))
+        hs.append(("astm", evs + gens.PROBE, {"nontrivial": True, "messages": n}))
+    run_histories_fmt(lg, hs, ctx)
+    streams.append(lg)
 
     # the same kind of sessions in an interpreter started with -O (assert statements are compiled away there)
     oq = Stream("python-O")
